@@ -15,7 +15,10 @@ from . import core
 MODES = ["union", "intersection"]
 # named family of metadata functions; each has a Lean twin (BiomModel/C09.lean `namedF`).
 # every member maps (None, None) to None or {} ("no metadata, no metadata" -> no metadata)
-FNAMES = ["prefer_self", "prefer_other", "union_self", "union_always", "both_only", "drop", "tag"]
+FNAMES = ["prefer_self", "prefer_other", "union_self", "union_always", "both_only", "drop", "tag", "sum_depth"]
+# members that read fields by subscription: an entry of table metadata answers None for a field it lacks, and (being a
+# defaultdict) then lists that field with the value None — the operand is "unchanged" up to such None-valued fields
+SUBSCRIPTING = ["sum_depth"]
 # members with f(None, None) != "no metadata": in the property's domain wherever every step takes the general
 # path (the fast path builds a metadata-free table: sanctioned by the property under the Neutral hypothesis);
 # a case using one of them is judged only if the MODEL's trace contains no fast step
@@ -55,7 +58,19 @@ def py_f(name):
         return {"src": "both" if (x is not None and y is not None) else
                 ("self" if x is not None else ("other" if y is not None else "neither"))}
 
+    def sum_depth(x, y):
+        if x is None and y is None:
+            return None
+        d, g = 0, None
+        for m in (x, y):
+            if m is not None:
+                d += m["depth"] or 0        # subscription: relies on the None default of table metadata
+                if g is None:
+                    g = m["grp"]
+        return {"depth": d, "grp": g}
+
     return {
+        "sum_depth": sum_depth,
         "tag_always": tag_always,
         "count_described": lambda x, y: {"described_by": (x is not None) + (y is not None)},
         "prefer_other": lambda x, y: y if y is not None else x,
@@ -192,6 +207,16 @@ def public_obs(r, rrng=None):
                 smd = [core.canon_md_entry(r.metadata(x, "sample")) for x in samp]
             got["omd"], got["smd"] = omd, smd
     return {"obs": obs, "samp": samp, "rows": got["rows"], "omd": got["omd"], "smd": got["smd"], "type": r.type}
+
+
+def strip_null(o):
+    """the observation without metadata fields whose value is None (reading a missing field of table metadata
+    by subscription leaves such a field behind; it reads as None before and after)"""
+    o = dict(o)
+    for key in ("omd", "smd"):
+        if o.get(key) is not None:
+            o[key] = [{k: v for k, v in e.items() if v != "null"} for e in o[key]]
+    return o
 
 
 def by_id(o):
@@ -424,7 +449,10 @@ def merge_once(ctx, recipe, tables, tags, rrng, label, shared=None):
             now = core.table_obs(t)
         except Exception:   # e.g. a value that is no longer finite
             now = None
-        if now != before[k]:
+        was = before[k]
+        if now is not None and (names["fs"] in SUBSCRIPTING or names["fo"] in SUBSCRIPTING):
+            now, was = strip_null(now), strip_null(was)
+        if now != was:
             ctx.fail(case, "operands:changed-by-merge" if r is not None else "operands:changed-by-refused-merge",
                      tuple(tags) + ("operand=%d" % k,))
         elif (r is None or recipe.get("coherence")) and not coherent(t):
@@ -584,6 +612,11 @@ def gen_md(rng, ids, who, kind):
             e["taxonomy"] = ["k__%s" % rng.choice("AB"), "p__%s" % who]
         if kind == "own-key":
             e = {"only_%s" % who: i}
+        if kind == "shared":
+            # the annotation depends on the ID only: operands listing the same IDs carry EQUAL entries
+            e = {"grp": "g%d" % (len(id_) % 2), "depth": sum(map(ord, id_)) % 4, "taxonomy": ["k__" + id_[:2], "p__x"]}
+            if sum(map(ord, id_)) % 5 == 0:
+                del e["depth"]              # entries with different key sets
         if kind == "nasty":
             tw = core.twin_ids(rng, 1)
             e = {"who": who, rng.choice(core.NASTY_TEXTS): rng.choice(core.NASTY_TEXTS), tw[0]: tw[1], tw[1]: i}
@@ -673,6 +706,9 @@ def md_config(rng, which, k):
         c = rng.choice([("plain", "plain"), ("rich", "none"), ("none", "plain"), ("holes", "plain"),
                         ("own-key", "own-key"), ("plain", "holes"), ("nasty", "plain"), ("none", "nasty")])
         return c
+    if which == "shared":
+        c = rng.choice([("shared", "shared"), ("shared", "none"), ("none", "shared"), ("shared", "plain")])
+        return [c for _ in range(k + 1)]
     cfg = []
     for j in range(k + 1):
         has = (which == "both") or (which == "self" and j == 0) or (which == "other" and j == k) or \
@@ -828,6 +864,28 @@ def wide_recipe(rng, axis, n_axis=None):
             "fs": policy(rng), "fo": policy(rng)}
 
 
+def many_recipe(rng, k):
+    """operand COUNT thresholds: k others in one call (list / tuple form), small tables over a small ID pool"""
+    regime = rng.choice(["small", "bigint", "fine"])
+    po = ["Oa", "Ob", "Oc", "Od", "O10"]
+    ps = ["Sa", "Sb", "Sc", "S2"]
+    which = rng.choice(["neither", "one", "some", "shared"])
+    ops = []
+    for j in range(k + 1):
+        obs = [po[0]] + rng.sample(po[1:], rng.randint(0, 2))
+        samp = [ps[0]] + rng.sample(ps[1:], rng.randint(0, 2))
+        rng.shuffle(obs)
+        rng.shuffle(samp)
+        has = (which == "one" and j == k // 2) or (which == "some" and rng.random() < 0.4)
+        kind = "shared" if which == "shared" else ("plain" if has else "none")
+        spec = {"obs": obs, "samp": samp, "rows": gen_grid(rng, len(obs), len(samp), 0.8, regime),
+                "omd": gen_md(rng, obs, "t%d" % j, kind), "smd": gen_md(rng, samp, "t%d" % j, rng.choice([kind, "none"])),
+                "type": None}
+        ops.append({"spec": spec, "route": rng.choice(core.ROUTES), "hist": []})
+    return {"ops": ops, "form": rng.choice(["list", "tuple"]), "ms": rng.choice(MODES), "mo": rng.choice(MODES),
+            "fs": policy(rng), "fo": policy(rng), "regime": regime}
+
+
 def run(ctx):
     rng = ctx.rng
     ctx.rule = ("recipes = (operands built by core.build route + prior history, then left in a random layout by read-only "
@@ -862,7 +920,7 @@ def run(ctx):
     for opat in pats:
         for spat in pats:
             for ms, mo in itertools.product(MODES, MODES):
-                for which in ("neither", "self", "other", "both"):
+                for which in ("neither", "self", "other", "both", "shared"):
                     fs, fo = policy(rng), policy(rng)
                     form = rng.choice(["single", "single", "list"])
                     recipe = harden(rng, gen_recipe(rng, 1, opat, spat, ms, mo, md_config(rng, which, 1), fs, fo, form))
@@ -872,8 +930,9 @@ def run(ctx):
     # every policy pair on a partial overlap with metadata on both operands, all modes; pair and list form
     for fs, fo in itertools.product(["default", None] + FNAMES, repeat=2):
         ms, mo = rng.choice(MODES), rng.choice(MODES)
-        for which, form, k in (("both", "single", 1), ("other", "single", 1), ("both", "list", 2)):
-            recipe = harden(rng, gen_recipe(rng, k, "partial", "partial", ms, mo, md_config(rng, which, k), fs, fo, form))
+        for which, form, k, pat in (("both", "single", 1, "partial"), ("other", "single", 1, "partial"),
+                                    ("both", "list", 2, "partial"), ("shared", "single", 1, "identical")):
+            recipe = harden(rng, gen_recipe(rng, k, pat, pat, ms, mo, md_config(rng, which, k), fs, fo, form))
             run_case(ctx, recipe, ("policy-product",))
     # size thresholds
     nw = max(1, getattr(ctx, "worker", (0, 1))[1])     # the thorough tier is sharded over worker processes
@@ -881,17 +940,24 @@ def run(ctx):
         axis = rng.choice(["sample", "observation"])
         run_case(ctx, harden(rng, wide_recipe(rng, axis), then=False), ("wide", "axis=" + axis))
         ctx.count("wide=" + axis)
+    # operand counts: up to and beyond 8 / 16 / 32 tables in one call, every mode pair over the run
+    counts = [7, 8, 9, 10, 11, 12, 13, 15, 16, 17, 20, 31, 32, 33, 40]
+    for j, k in enumerate(counts if ctx.quick() else counts * 3):
+        recipe = many_recipe(rng, k)
+        recipe["ms"], recipe["mo"] = list(itertools.product(MODES, MODES))[j % 4]
+        run_case(ctx, harden(rng, recipe, then=False), ("many", "k=%d" % k))
+        ctx.count("many-operands k=%d" % k)
     # one table beyond 512 IDs on an axis
     axis = rng.choice(["sample", "observation"])
     run_case(ctx, harden(rng, wide_recipe(rng, axis, n_axis=rng.choice([513, 520, 600])), then=False),
              ("wide", "over-512", "axis=" + axis))
     ctx.count("wide>512=" + axis)
     # random, including k-tuples
-    n = 1800 if ctx.quick() else max(4000, 64000 // nw)
+    n = 1400 if ctx.quick() else max(4000, 56000 // nw)
     for _ in range(n):
         k = rng.choice([1, 1, 2, 2, 3])
         form = "single" if (k == 1 and rng.random() < 0.5) else rng.choice(["list", "tuple"])
-        which = rng.choice(["neither", "neither", "self", "other", "both", "mixed"])
+        which = rng.choice(["neither", "neither", "self", "other", "both", "mixed", "shared"])
         ms, mo = rng.choice([("union", "union")] * 3 + list(itertools.product(MODES, MODES)))
         regime = rng.choice(REGIMES)
         opat, spat = rng.choice(pats), rng.choice(pats)
